@@ -48,6 +48,11 @@ func (a baseAlgo) SelectBeacons(_ context.Context, beacons []Beacon, resultSize 
 	if len(beacons) <= resultSize {
 		return beacons
 	}
+	if resultSize <= 1 {
+		// There is no "k-1 shortest" set to diversify against: serve the shortest
+		// beacon (or nothing, if nothing was asked for).
+		return beacons[:max(resultSize, 0)]
+	}
 
 	result := make([]Beacon, resultSize-1, resultSize)
 	copy(result, beacons[:resultSize-1])
